@@ -123,6 +123,24 @@ def run(ctx):
             ok2 = len(sm) == 1 and ex.mentions(sm[0].args[0], other[0])
             ctx.check(ok and ok2, 'R4', '%s path (matched=%s)' % (name, matched), where(f), 'searches type %s, push x%d, set_message x%d' % (opposite if okt else '?', len(pushes), len(sm)),
                       key='R4|%s|push xor match' % name)
+            # what the exchange needs is set on every path, before start(): a matched message becomes READY; a put stores the payload and the sender, a get the
+            # receiver buffer and the receiver
+            ready = [e for e in evs if e.kind == 'call' and e.q.endswith('::set_state') and e.obj == other[0] and e.args and 'READY' in repr(e.args[0])]
+            ctx.check((len(ready) == 1) == bool(matched), 'R4', '%s path (matched=%s): the message becomes READY iff it was matched' % (name, matched), where(f), 'set_state(READY) x%d' % len(ready),
+                      key='R4|%s|ready iff matched' % name)
+            st_i = [i for i, e in enumerate(evs) if e.kind == 'call' and e.q == ME + '::start' and e.obj == other[0]]
+            before = evs[:st_i[0]] if st_i else evs
+            if name == 'iput':
+                pay = [e for e in before if (e.kind == 'assign' and e.lhs[0] == 'field' and e.lhs[1] == other[0] and e.lhs[2].endswith('::payload_') and 'get_payload' in repr(e.rhs)) or
+                       (e.kind == 'call' and e.q.endswith('::set_payload') and e.obj == other[0] and 'get_payload' in repr(e.args))]
+                who = [e for e in before if e.kind == 'assign' and e.lhs[0] == 'field' and e.lhs[1] == other[0] and e.lhs[2].endswith('::src_actor_') and 'get_issuer' in repr(e.rhs)]
+                ctx.check(len(pay) == 1 and len(who) == 1, 'R4', 'iput path (matched=%s): payload and sender stored before start()' % matched, where(f), 'payload x%d, src_actor_ x%d' % (len(pay), len(who)),
+                          key='R4|iput|payload and sender set')
+            else:
+                buf = [e for e in before if e.kind == 'call' and e.q.endswith('::set_dst_buff') and e.obj == other[0] and 'get_dst_buff' in repr(e.args)]
+                who = [e for e in before if e.kind == 'assign' and e.lhs[0] == 'field' and e.lhs[1] == other[0] and e.lhs[2].endswith('::dst_actor_') and 'get_issuer' in repr(e.rhs)]
+                ctx.check(len(buf) == 1 and len(who) == 1, 'R4', 'iget path (matched=%s): receiver buffer and receiver stored before start()' % matched, where(f), 'set_dst_buff x%d, dst_actor_ x%d' % (len(buf), len(who)),
+                          key='R4|iget|buffer and receiver set')
             starts = [e for e in evs if e.kind == 'call' and e.q == ME + '::start' and e.obj == other[0]]
             ctx.check(len(starts) == 1, 'R4', '%s path (matched=%s) starts the message once' % (name, matched), where(f), 'start x%d' % len(starts), key='R4|%s|start' % name)
         ctx.require(n >= 2, 'R4', '%s: matched and unmatched paths not both recognised' % name)
@@ -173,4 +191,16 @@ def run(ctx):
             live = sum(1 for e in nulls if e.pol)
             ctx.check(len(ans) == live, 'R6', 'finish answers each live issuer it unregisters (%d live on this path)' % live, where(fin), 'answers %d' % len(ans), key='R6|finish|answers')
     ctx.require(stores >= 1, 'R6', 'payload store not found')
+    # a message that finishes while still queued (cancelled wait, timeout, killed actor) leaves the queue: otherwise a later put/get matches a dead entry
+    okq = None
+    QF = lib.this_field(ME + '::queue_')
+    for p in v.paths(max_visits=1):
+        if p.exit in ('noreturn', 'cut', 'throw'):
+            continue
+        evs = v.path_events(p)
+        inq = [e.pol for e in evs if e.kind == 'branch' and e.atom == lib.truthy(QF)]
+        rm = [e for e in evs if e.kind == 'call' and e.q == MQ + '::remove' and e.obj == QF]
+        good = len(inq) >= 1 and (len(rm) == 1) == inq[0]
+        okq = good if okq is None else (okq and good)
+    ctx.check(bool(okq), 'R6', 'finish removes the message from its queue whenever it is still in one', where(fin), '', key='R6|finish|leaves the queue')
     return EXPLANATION
